@@ -623,13 +623,16 @@ pub fn daemon_c20(out: &mut Out, tier: &str, rng: &mut Rng) {
         let mut cfgs: Vec<NetCfg> = vec![];
         for k in 0..nets {
             // every run has at least one network WITHOUT units
-            let l = if k == n % nets { lists[0].clone() } else { rng.pick(&lists).clone() };
+            // (the first other network of run n takes list 4, 3, 2, ... in turn so that every list meets every mode)
+            let l = if k == n % nets { lists[0].clone() } else if k == (n + 1) % nets { lists[4 - (n / 3 + n + 3) % 4].clone() } else { rng.pick(&lists).clone() };
             cfgs.push(NetCfg { address: *rng.pick(&[0x27u8, 0x9B, 0x01, 0xFD]), name: [rng.below(2048) as u32, rng.below(32) as u32, rng.below(8) as u32, rng.below(256) as u32, rng.below(128) as u32, rng.below(16) as u32, rng.below(8) as u32], drivers: l });
         }
         let dir = std::path::PathBuf::from(format!("/verif/.cache/e2e/c20-{}-{}", std::process::id(), n));
         let _ = std::fs::remove_dir_all(&dir);
         std::fs::create_dir_all(dir.join("bus")).unwrap();
-        let mut text = format!("mode = \"normal\"\n[unix_listener]\npath = \"{}\"\n[machine]\nid = \"00000000-0000-0000-0000-000000000000\"\ntype = \"Excavator\"\nmodel = \"LE240\"\nserial = \"0.0\"\n[engine]\nrpm_idle = 800\nrpm_max = 2100\n", dir.join("glonax.sock").display());
+        // every operating mode (what a network does at start-up and answers does not depend on it)
+        let mode = ["normal", "pilot-restrict", "autonomous"][n % 3];
+        let mut text = format!("mode = \"{}\"\n[unix_listener]\npath = \"{}\"\n[machine]\nid = \"00000000-0000-0000-0000-000000000000\"\ntype = \"Excavator\"\nmodel = \"LE240\"\nserial = \"0.0\"\n[engine]\nrpm_idle = 800\nrpm_max = 2100\n", mode, dir.join("glonax.sock").display());
         for (k, c) in cfgs.iter().enumerate() {
             let ds: Vec<String> = c.drivers.iter().map(|d| format!("{{ da = {}, {}{}vendor = \"{}\", product = \"{}\" }}", d.da, d.sa.map_or(String::new(), |x| format!("sa = {}, ", x)), d.timeout.map_or(String::new(), |x| format!("timeout = {}, ", x)), d.vendor, d.product)).collect();
             text += &format!("[[j1939]]\ninterface = \"vcd{}\"\naddress = {}\ndriver = [{}]\n[j1939.name]\nmanufacturer_code = {}\nfunction_instance = {}\necu_instance = {}\nfunction = {}\nvehicle_system = {}\nvehicle_system_instance = {}\nindustry_group = {}\n", k, c.address, ds.join(", "), c.name[0], c.name[1], c.name[2], c.name[3], c.name[4], c.name[5], c.name[6]);
@@ -638,7 +641,7 @@ pub fn daemon_c20(out: &mut Out, tier: &str, rng: &mut Rng) {
         std::fs::File::create(&cfile).unwrap().write_all(text.as_bytes()).unwrap();
         let buses: Vec<Bus> = (0..nets).map(|k| Bus::attach_at(&dir.join("bus"), &format!("vcd{}", k))).collect();
         let mut child = std::process::Command::new(GLONAXD)
-            .arg("--config").arg(&cfile).arg("--quiet")
+            .arg("--config").arg(&cfile).arg("--quiet").args(if n % 4 == 3 { vec!["--pilot-only"] } else { vec![] })
             .env("GLONAX_VERIF_BUS", dir.join("bus")).env_remove("GLONAX_VERIF_BUS_LOOPBACK")
             .stdout(std::process::Stdio::null()).stderr(std::process::Stdio::null())
             .spawn().expect("spawn glonaxd");
@@ -655,7 +658,7 @@ pub fn daemon_c20(out: &mut Out, tier: &str, rng: &mut Rng) {
                 all_claimed_at = Some(Instant::now());
             }
             if let Some(t) = all_claimed_at {
-                if t.elapsed() > Duration::from_millis(200) {
+                if t.elapsed() > Duration::from_millis(500) {
                     break;
                 }
             }
@@ -683,7 +686,9 @@ pub fn daemon_c20(out: &mut Out, tier: &str, rng: &mut Rng) {
                 }
                 answers.push(if got.is_empty() { "-".to_string() } else { got.join(",") });
             }
-            toks.push(format!("{}|{}|{}", if claim.is_empty() { "-".to_string() } else { claim.join(",") }, answers[0], answers[1]));
+            // the requests the daemon sent to its configured units during start-up, in order
+            let reqs: Vec<String> = seen[i].iter().filter(|r| (u32::from_le_bytes([r[0], r[1], r[2], r[3]]) >> 16) & 0xFF == 0xEA).map(|r| raw_to_frame_tok(r, c.address)).collect();
+            toks.push(format!("{}|{}|{}|{}", if claim.is_empty() { "-".to_string() } else { claim.join(",") }, answers[0], answers[1], if reqs.is_empty() { "-".to_string() } else { reqs.join(",") }));
         }
         unsafe {
             libc::kill(child.id() as i32, libc::SIGTERM);
